@@ -32,53 +32,8 @@ if ! (cd "$VERIF/sendsync" && CARGO_TARGET_DIR="$VERIF/target/sendsync" cargo bu
   echo "MACHINERY-ERROR: sendsync build failed for a reason other than Send/Sync (see $logA)"; tail -20 "$logA"; exit 2
 fi
 
-# ---- stage B: instrumented copy ----
+# ---- stage B: instrumented copy (assembled and built by scripts/build_loom.sh) ----
+"$VERIF/scripts/build_loom.sh" || exit 2
 WS="$VERIF/target/loomws"
-mkdir -p "$WS"
-rm -rf "$WS/engine" "$WS/loomh"
-mkdir -p "$WS/engine"
-cp -r "$REPO/src" "$WS/engine/src"
-python3 - "$REPO/Cargo.toml" "$WS/engine/Cargo.toml" <<'P'
-import re,sys
-s=open(sys.argv[1]).read()+"\n"
-s=re.sub(r'\[dev-dependencies\]\n(?:[^\[].*\n|\n)*','',s)
-s=re.sub(r'\[\[bench\]\]\n(?:[^\[].*\n|\n)*','',s)
-s=s.replace('[dependencies]\n','[dependencies]\nloom = { path = "../../../vendor/loom" }\n',1)
-s+='\n[workspace]\n'
-open(sys.argv[2],'w').write(s)
-P
-python3 - "$WS/engine/src" "$WS/substitutions.json" <<'P'
-import re,sys,os,json,hashlib
-root=sys.argv[1]
-subs={}
-h=hashlib.sha256()
-for f in sorted(os.listdir(root)):
-    if not f.endswith('.rs'): continue
-    p=os.path.join(root,f)
-    s=open(p).read()
-    h.update(f.encode()); h.update(s.encode())
-    n=0
-    for a,b in (('std::sync::','loom::sync::'),('std::thread::','loom::thread::'),('std::cell::UnsafeCell','loom::cell::UnsafeCell')):
-        c=s.count(a); n+=c; s=s.replace(a,b)
-    # grouped imports: use std::{sync::Arc, ...}
-    grouped=len(re.findall(r'use\s+std::\{[^}]*\b(sync|thread)::',s))
-    # statics holding a loom primitive cannot be const-initialised: turn them into loom::lazy_static (reset per execution)
-    stat=re.compile(r'^([ \t]*)((?:pub(?:\([^)]*\))?\s+)?)static\s+(\w+)\s*:\s*([^=;]*?(?:Mutex|RwLock|Condvar|Atomic\w+)[^=;]*?)\s*=\s*(.+?);[ \t]*$', re.M|re.S)
-    ns=0
-    def repl(m):
-        global ns
-        ns+=1
-        return '%sloom::lazy_static! { %sstatic ref %s: %s = %s; }' % (m.group(1),m.group(2),m.group(3),m.group(4),m.group(5))
-    if n:
-        s=stat.sub(repl,s)
-    if n: open(p,'w').write(s)
-    subs[f]={"substituted":n,"statics_made_lazy":ns,"grouped_std_imports_not_substituted":grouped}
-json.dump({"files":subs,"total":sum(v["substituted"] for v in subs.values()),"src_sha256":h.hexdigest()},open(sys.argv[2],'w'),indent=1)
-P
-cp -r "$VERIF/loomh" "$WS/loomh"
-logB="$VERIF/target/build-loomh.log"
-if ! (cd "$WS/loomh" && CARGO_TARGET_DIR="$VERIF/target/loom" cargo build --release --offline >"$logB" 2>&1); then
-  echo "MACHINERY-ERROR: loom harness build failed (see $logB)"; grep -E "^error" -A12 "$logB" | head -40; exit 2
-fi
 python3 "$VERIF/scripts/c18_driver.py" --run "$VERIF/target/loom/release/loomh" "$WS/substitutions.json" "$TIER"
 exit $?
